@@ -28,13 +28,13 @@ DLS = ("n", "D1", "D2", "D3")
 
 
 def bounds(tier):
-    return dict(tier=tier, families=["nested", "inherit", "helpers (TypedDict / NamedTuple with default / Union fields: generated helper methods)", "formats (to_dict / to_jsonb / to_msgpack and back on one class)", "late (subclass defined by an operation of the history)"], modes=list(c14.MODES), history_depth=3 if tier == "quick" else 4,
+    return dict(tier=tier, families=["nested", "inherit", "generic (holder of two specialisations of one generic dataclass)", "helpers (TypedDict / NamedTuple with default / Union fields: generated helper methods)", "formats (to_dict / to_jsonb / to_msgpack and back on one class)", "late (subclass defined by an operation of the history)"], modes=list(c14.MODES), history_depth=3 if tier == "quick" else 4,
                 dialects=list(DLS), formats=list(formats.FORMATS), option_subsets="all of size <= 2 (thorough: <= 3)", dialect_styles=["options on the dialect", "on a parent Dialect class", "split between parent and child"])
 
 
 def units(tier):
     out = []
-    for fam in ("nested", "inherit", "helpers"):
+    for fam in ("nested", "inherit", "helpers", "generic"):
         for mode in c14.MODES:
             out.append(("hist", fam, mode, 3 if tier == "quick" else 4))
     for mode in (("eager", "lazy") if tier == "quick" else c14.MODES):
